@@ -1128,6 +1128,36 @@ func genShape(r *rand.Rand, i int) shape {
 		}
 		s.kind += "/cross"
 	}
+	exact := i%4 == 2 && n >= 4
+	if exact {
+		// the partial sums of the first 1..3 chunks hit SecRequestBodyLimit EXACTLY, then more data
+		// arrives in 1..2 further chunks
+		L := 2 + r.Intn(n-2) // 2 .. n-1
+		s.cfg.Limit = int64(L)
+		s.cfg.Reject = (i/4)%2 == 0
+		if s.cfg.Mem > s.cfg.Limit || r.Intn(2) == 0 {
+			s.cfg.Mem = int64(1 + r.Intn(L))
+		}
+		parts := 1 + r.Intn(3)
+		rem := L
+		for j := 0; j < parts && rem > 0; j++ {
+			k := rem
+			if j < parts-1 && rem > 1 {
+				k = 1 + r.Intn(rem-1)
+			}
+			s.calls = append(s.calls, callJ{K: "w", N: k})
+			rem -= k
+		}
+		left = n - L
+		if left > 1 && r.Intn(2) == 0 {
+			k := 1 + r.Intn(left-1)
+			s.calls = append(s.calls, callJ{K: "w", N: k})
+			left -= k
+		}
+		s.calls = append(s.calls, callJ{K: "w", N: left})
+		left = 0
+		s.kind += "/exact-limit"
+	}
 	for w := 1 + r.Intn(3); w > 0 && left > 0; w-- {
 		k := left
 		if w > 1 {
@@ -1137,7 +1167,7 @@ func genShape(r *rand.Rand, i int) shape {
 		left -= k
 	}
 	s.calls = append(s.calls, callJ{K: "p"}, callJ{K: "l"})
-	if !cross && r.Intn(6) == 0 { // anomalous orders
+	if !cross && !exact && r.Intn(6) == 0 { // anomalous orders
 		a, b := r.Intn(len(s.calls)), r.Intn(len(s.calls))
 		s.calls[a], s.calls[b] = s.calls[b], s.calls[a]
 	}
@@ -1284,6 +1314,17 @@ func Run(cfg vh.Config) (*vh.Result, error) {
 		if json.Unmarshal(b, &doc) == nil && len(doc.Case) > 0 {
 			raw = doc.Case
 		}
+		lc := &limitCaseJ{}
+		if json.Unmarshal(raw, lc) == nil && lc.Kind == "limit" {
+			fails, err := runLimitCase(e, &limitCaseJ{Kind: "limit", Entry: lc.Entry, Reject: lc.Reject, Limit: lc.Limit, Chunks: lc.Chunks})
+			if err != nil {
+				return nil, err
+			}
+			res.OracleFailures = append(res.OracleFailures, fails...)
+			res.OracleEvaluations++
+			res.Shards = []vh.ShardInfo{}
+			return res, nil
+		}
 		hc := &httpCaseJ{}
 		if json.Unmarshal(raw, hc) == nil && hc.Kind == "http" {
 			he, err := newHTTPEnv(filepath.Join(base, "http"))
@@ -1326,6 +1367,16 @@ func Run(cfg vh.Config) (*vh.Result, error) {
 		}
 		res.InputDistribution["corpus"]++
 	}
+	// exact-limit family: every split of the limit into 1..3 chunks, then 1..2 more chunks, both limit
+	// actions, memory and disk buffered (correspondence cases, no injected fault)
+	for _, c := range exactLimitCases() {
+		if err := add(c); err != nil {
+			return nil, err
+		}
+		res.InputDistribution["family:exact-limit"]++
+	}
+	// the io.Reader entry points and the response side (oracle only)
+	runLimitFamily(e, res)
 	// the middleware family (oracle only)
 	if err := runHTTPFamily(base, res); err != nil {
 		return nil, err
@@ -1387,4 +1438,42 @@ func Run(cfg vh.Config) (*vh.Result, error) {
 	}
 	res.Notes = append(res.Notes, "modelled, not validated (cannot be injected without rewriting code): short writes without error, io.Copy destination errors other than EFBIG, Close errors of upload files, read faults in the middle of a multipart body")
 	return res, nil
+}
+
+// exactLimitCases: bodies of limit+3 bytes written as (composition of the limit into 1..3 chunks) ++
+// ([3] | [1,2]).
+func exactLimitCases() []*caseJ {
+	const L = 5
+	body := []byte("a=1&b=23")
+	var comps [][]int
+	for a := 1; a <= L; a++ {
+		if a == L {
+			comps = append(comps, []int{a})
+			continue
+		}
+		for b := 1; a+b <= L; b++ {
+			if a+b == L {
+				comps = append(comps, []int{a, b})
+				continue
+			}
+			comps = append(comps, []int{a, b, L - a - b})
+		}
+	}
+	var out []*caseJ
+	for _, comp := range comps {
+		for _, more := range [][]int{{3}, {1, 2}} {
+			for _, reject := range []bool{true, false} {
+				for _, mem := range []int64{L, 2} {
+					c := &caseJ{Cfg: cfgJ{Limit: L, Mem: mem, Reject: reject, Keep: "off", Proc: "url", Audit: "off", LogRule: true}, Body: hex.EncodeToString(body)}
+					c.Calls = append(c.Calls, callJ{K: "h"})
+					for _, k := range append(append([]int{}, comp...), more...) {
+						c.Calls = append(c.Calls, callJ{K: "w", N: k})
+					}
+					c.Calls = append(c.Calls, callJ{K: "p"}, callJ{K: "l"})
+					out = append(out, c)
+				}
+			}
+		}
+	}
+	return out
 }
